@@ -24,7 +24,8 @@
     memoStep / runMemo     `Memoize.interpret` (interpretations.py:276-281) as a state machine over the
                            cache `Key ⇀ Value`; values carry the index of the request that computed
                            them (= object identity).  `realKey` is `make_hash_key` (interpretations.py:
-                           54-68): the arguments only — the term class is dropped.
+                           54-68: arguments only, the key before 99d933f), `headKey` the key on HEAD
+                           (origin class + arguments).
     seqReduce              `Funsor.sequential_reduce` (terms.py:537-560): enumerate the integer
                            variables with itertools.product, substitute, left-fold with the op.
     ClassEntry / candidate the class table over which key collisions are decided (Gen/C03ClassTable).
@@ -452,11 +453,18 @@ def KeyRespects (key : C → A → K) (base : C → A → Option V) : Prop :=
 
 end Memo
 
-/-- `Interpretation.make_hash_key(cls, *args)`: the class is dropped. -/
+/-- `Interpretation.make_hash_key(cls, *args)`: the class is dropped.  This alone was the key of
+    `Memoize.interpret` before commit 99d933f (and still is the per-class cons-hash key). -/
 def realKey {C A : Type} (_cls : C) (args : A) : A := args
 
-/-- What `test`ing a fixed key would look like: class and arguments. -/
+/-- Class and arguments. -/
 def fullKey {C A : Type} (cls : C) (args : A) : C × A := (cls, args)
+
+/-- The key of `Memoize.interpret` on HEAD: `(get_origin(cls),) + make_hash_key(cls, *args)`.  The class
+    of a request is an origin class `C`, possibly subscripted with type parameters `P` (direct
+    construction passes the origin, `reinterpret` passes `type(x)`, e.g. `Binary[AddOp, Tensor, Tensor]`);
+    `get_origin` forgets the parameters. -/
+def headKey {C P A : Type} (cls : C × P) (args : A) : C × A := (cls.1, args)
 
 /-! ## 5. sequential_reduce (terms.py:537-560) -/
 
